@@ -295,9 +295,11 @@ def work_process(job: Tuple[str, str]) -> Dict[str, Any]:
         for fn, text in files.items():
             open(os.path.join(src, fn), "w").write(text)
 
-        def run_one(tag: str, seed_: str, cwd: str, path: str, quiet: bool) -> Any:
+        def run_one(tag: str, seed_: str, cwd: str, path: str, quiet: bool, prefill: Any = None) -> Any:
             out = sc.path("out_" + tag)
             os.makedirs(out, exist_ok=True)
+            for f in (prefill or []):  # the output directory was used before: longer files of the same names are in the way
+                open(os.path.join(out, f), "w").write("/* stale */\n" * 20000)
             digests = {}
             for fn in files:  # every file of the import graph, as a build would
                 p = os.path.join(os.path.dirname(path), fn) if os.path.dirname(path) else fn
@@ -323,9 +325,17 @@ def work_process(job: Tuple[str, str]) -> Dict[str, Any]:
                      ("dotdot", "0", sc.path("out_ref"), os.path.join("..", "src", main), True)]
         variants += [("abs-path", "0", src, os.path.join(src, main), True), ("cwd-root", "0", "/", os.path.join(src, main), True), ("cwd-parent-rel", "0", sc.dir, os.path.join("src", main), True),
                      ("lint-on", "0", src, main, False), ("lint-on-seed5", "5", src, main, False)]
+        # a working directory that holds OTHER files under the names this schema imports (relative imports belong to the
+        # importing file's directory), and an output directory that already holds longer files of the same names
+        shadow = sc.path("shadow_cwd")
+        os.makedirs(shadow)
+        for fn, text in files.items():
+            if fn != main:
+                open(os.path.join(shadow, fn), "w").write(text.replace("int20", "int22").replace("uint7 percent", "uint5 percent").replace("int48", "int40"))
+        variants += [("cwd-with-same-named-files", "0", shadow, os.path.join(src, main), True), ("used-output-dir", "0", src, main, True)]
         for tag, s, cwd, path, quiet in variants:
             res["obligations"] += 1
-            got = run_one(tag, s, cwd, path, quiet)
+            got = run_one(tag, s, cwd, path, quiet, prefill=sorted(ref) if tag == "used-output-dir" else None)
             if not isinstance(got, dict):
                 res["inconclusive"].append(f"{res['case']}: run {tag} failed: {got}")
                 continue
